@@ -189,10 +189,17 @@ def _run(cmd, cwd=None, timeout=3600, env=None):
     return p.returncode, p.stdout
 
 
+# which regenerated tables (harness/extract.py) the model of a property is built on: when one of them can no longer be regenerated the
+# property is no longer shown to hold for the code as it is now
+TIE_A = {'C05': ('grammar',), 'C06': ('grammar', 'grammar_rank'), 'C09': ('facade',), 'C11': ('runtime_consts',), 'C13': ('runtime_consts',),
+         'C20': ('runtime_ast',)}
+
+
 class BuildResult:
     def __init__(self):
         self.extract_ok = True
         self.extract_log = ''
+        self.extract_failed = {}
         self.driver_ok = False
         self.props_ok = False
         self.log = ''
@@ -294,10 +301,11 @@ def lean_build(prop_modules, tier='quick', want_driver=True) -> BuildResult:
     fcntl.flock(lock, fcntl.LOCK_EX)
     try:
         try:
-            extract.run()
-        except Exception as e:  # extraction failure: infrastructure, reported by caller
-            res.extract_ok = False
-            res.extract_log = '%s: %s' % (type(e).__name__, e)
+            res.extract_failed = extract.run()
+        except Exception as e:  # the repository does not even import
+            res.extract_failed = {'*': '%s: %s' % (type(e).__name__, e)}
+        res.extract_ok = not res.extract_failed
+        res.extract_log = json.dumps(res.extract_failed)
         if want_driver:
             rc, out = _run(['lake', 'build', 'e2pdrv'], cwd=LEAN_DIR)
             res.driver_ok = rc == 0
@@ -499,6 +507,10 @@ class Check:
             if self.mismatches:
                 streams = sorted(set(m['stream'] for m in self.mismatches))
                 broken += ['correspondence:%s' % s for s in streams]
+            if b is not None:
+                for name, err in sorted(b.extract_failed.items()):
+                    if name == '*' or name in TIE_A.get(self.prop, ()):
+                        broken.append('tie-A: the table of extractor %s can no longer be regenerated from the source (%s)' % (name, err))
             if broken:
                 path = os.path.join(REPLAY_DIR, '%s-%s-seed%s.json' % (self.prop, self.tier, self.seed))
                 json.dump({'property': self.prop, 'seed': self.seed, 'tier': self.tier,
